@@ -50,6 +50,11 @@ class InjectedOSError(OSError):
     pass
 
 
+class InjectedBrokenPipe(BrokenPipeError):
+    """a destination write failing with an exception of the ConnectionError family
+    (what a pipe / socket backed output raises); still a write failure, never retryable"""
+
+
 class InjectedReadError(Exception):
     """non-retryable error while reading a source / stream"""
 
@@ -328,6 +333,11 @@ class FakeClient:
     def _fault(self, rec, when):
         label = f"s3:{rec['op']}:{when}"
         plan = self.plan
+        if when == 'before' and rec['op'] == 'GetObject' and plan.on('s3call:GetObject:retryable') and plan.key_ok(rec):
+            if self.sched.choose(2, 's3call:GetObject:retryable'):
+                e = make_retryable(plan.retryable_kinds[0], rec['id'])
+                self.note_injected(e, 's3call:GetObject:retryable', rec, retryable=True)
+                raise e
         if plan.on(label) and (plan.only_ops is None or rec['op'] in plan.only_ops) and plan.key_ok(rec):
             if self.sched.choose(2, label):
                 e = InjectedClientError(rec['op'], f"{rec['id']}:{when}")
